@@ -76,8 +76,9 @@ func verifC14Setup() (instance string, instanceOK bool, fn remoteexecution.Diges
 }
 
 // verifC14Shape picks the number of entries and their kinds: the first entry
-// ranges over all kinds, later ones over the objects and one malformed kind
-// (thorough: all kinds). An invalid instance name is tried with one entry only.
+// ranges over all kinds, the second over the objects and one malformed kind, a
+// third (thorough tier) over one object and one malformed kind. An invalid
+// instance name is tried with one entry only.
 func verifC14Shape(instanceOK bool, maxK int) []int {
 	if !instanceOK {
 		return []int{0}
@@ -85,10 +86,13 @@ func verifC14Shape(instanceOK bool, maxK int) []int {
 	k := vnd.Choose(maxK + 1)
 	var entries []int
 	for i := 0; i < k; i++ {
-		if i == 0 || vnd.Thorough() {
+		switch i {
+		case 0:
 			entries = append(entries, vnd.Choose(verifEntryKinds))
-		} else {
+		case 1:
 			entries = append(entries, vnd.Choose(4))
+		default:
+			entries = append(entries, []int{0, verifEntryMalformedHex}[vnd.Choose(2)])
 		}
 	}
 	return entries
@@ -192,10 +196,13 @@ const (
 func (b *verifReadBackend) Get(ctx context.Context, d digest.Digest) buffer.Buffer {
 	b.gets = append(b.gets, d)
 	kind := 0
-	if len(b.kinds) == 0 || vnd.Thorough() {
+	switch len(b.kinds) {
+	case 0:
 		kind = vnd.Choose(verifServeKinds)
-	} else {
+	case 1:
 		kind = []int{verifServeRight, verifServeWrong, verifServeAbsent}[vnd.Choose(3)]
+	default:
+		kind = []int{verifServeRight, verifServeLong}[vnd.Choose(2)]
 	}
 	b.kinds = append(b.kinds, kind)
 	var data []byte
@@ -252,7 +259,7 @@ func Verif_C14_B4_BatchReadBlobs() {
 		}
 		req.Digests = append(req.Digests, verifC14Entry(u, e))
 	}
-	limit := int64(vnd.Int(0, 7)) // symbolic; the largest possible total is 4 (thorough 6)
+	limit := int64(vnd.Int(0, 7)) // symbolic; the largest possible total is 6
 	s := NewContentAddressableStorageServer(backend, limit)
 	resp, err := s.BatchReadBlobs(context.Background(), req)
 
@@ -330,10 +337,13 @@ func Verif_C14_B4_BatchUpdateBlobs() {
 	var dataKinds []int
 	for i, e := range entries {
 		dk := 0
-		if i == 0 || vnd.Thorough() {
+		switch i {
+		case 0:
 			dk = vnd.Choose(4)
-		} else {
+		case 1:
 			dk = []int{verifServeRight, verifServeWrong, verifServeLong}[vnd.Choose(3)]
+		default:
+			dk = []int{verifServeRight, verifServeShort}[vnd.Choose(2)]
 		}
 		dataKinds = append(dataKinds, dk)
 		base := u[0].Data
